@@ -121,6 +121,9 @@ def oracle(case, ctx):
     total = n0 + sum(case["updates"])
     vals = [v + ((i * 37) % 11) / 7.0 for i, v in enumerate(case["values"][:total])]
     y = gen.build_series(vals, case["start"], case["index_kind"])
+    if case.get("int_dtype"):
+        y = pd.Series(np.round(y.to_numpy() * 3).astype("int64"), index=y.index)
+        ctx.label("int_dtype")
     ctx.label(pools.describe(spec).split("(")[0])
     ctx.label("abs" if case["fh_mode"] == "abs" else "rel")
     gapped = steps != list(range(1, len(steps) + 1))
@@ -134,6 +137,8 @@ def oracle(case, ctx):
     # metamorphic: shift all labels by k
     k = case["shift"]
     y2 = gen.build_series(vals, case["start"] + k, case["index_kind"])
+    if case.get("int_dtype"):
+        y2 = pd.Series(np.round(y2.to_numpy() * 3).astype("int64"), index=y2.index)
     obs2, discs2 = run_history(spec, y2, n0, steps, case)
     if discs2:
         return [D("shifted_run_fails:" + discs2[0]["kind"], "shift %d: %s" % (k, discs2[0]["detail"]))]
@@ -176,7 +181,7 @@ def cases(draw, depth=2, cheap=False):
         "fh_mode": draw(st.sampled_from(["rel", "rel", "abs"])),
         "fh_when": draw(st.sampled_from(["fit", "predict"])),
         "fh_kind": draw(st.sampled_from(["list", "array", "fh", "int"])),
-        "repeat_fh": draw(st.booleans()),
+        "repeat_fh": draw(st.booleans()), "int_dtype": draw(st.integers(0, 4)) == 0,
         "update_params": draw(st.lists(st.sampled_from([True, True, False]), min_size=1, max_size=3)),
         "shift": draw(st.sampled_from([1, -1, 7, -13, 100, -(start + n - 1) if start + n - 1 != 0 else 5])),
     }
